@@ -34,6 +34,10 @@ WATCHED = sched.code_objects(
 for _const in TypeRegistry.register.__code__.co_consts:
     if hasattr(_const, 'co_name') and _const.co_name == 'decorator':
         WATCHED.add(_const)
+        # the key function of the registry's sort runs Python code while list.sort() has the list detached
+        for _inner in _const.co_consts:
+            if hasattr(_inner, 'co_name') and _inner.co_name == '<lambda>':
+                WATCHED.add(_inner)
 
 COUNTER = itertools.count(1)
 HEAD = 'from typing import List, Dict, Optional, Union\nimport utype\nfrom utype import Schema, Field, Options\n'
